@@ -198,7 +198,7 @@ FinishNode(f, n, out0) ==
       ins2 == [x \in (DOMAIN f.ins) \ {n} |-> f.ins[x]]
       out == PostOut(f.g, n, out0)
       pd == IF f.g.state /\ f.g.post THEN f.postDue \cup {n} ELSE f.postDue
-      tn == IF n \in GNodes(f.g) /\ FailKind(f.g, n) = "serr" THEN f.tainted \cup {n} ELSE f.tainted
+      tn == IF n \in GNodes(f.g) /\ FailKind(f.g, n) \in {"serr", "spanic"} THEN f.tainted \cup {n} ELSE f.tainted
   IN IF IsDag(f.g) THEN [f EXCEPT !.status[n] = "done", !.running = f.running \ {n}, !.outs = (n :> out) @@ f.outs,
                                   !.afterDue = due, !.ins = ins2, !.postDue = pd, !.tainted = tn]
      ELSE [f EXCEPT !.running = f.running \ {n}, !.outs = (n :> out) @@ f.outs, !.afterDue = due, !.ins = ins2, !.postDue = pd, !.tainted = tn,
@@ -383,10 +383,13 @@ OnResult(S, e) ==
 \* failing nodes: running, configured to fail with this kind, as <<prefix, node>>
 Failing(V, kind) == UNION {{<<p, n>> : n \in {x \in V[p].running : x \in GNodes(V[p].g) /\ FailKind(V[p].g, x) = kind}} : p \in DOMAIN V}
 SerrRan(V) == \E p \in DOMAIN V : V[p].tainted # {} \/ V[p].poisonSrc # {}
+SpanicRan(V) == \E p \in DOMAIN V : \E n \in V[p].tainted \cup V[p].poisonSrc : FailKind(V[p].g, n) = "spanic"
 CancelRan(V) == \E p \in DOMAIN V : V[p].canceled
 ErrorWhy(gg, V, e) == LET c == e.class IN
   IF c = "hang" THEN "run-hangs"
-  ELSE IF c = "escaped-panic" THEN "panic-escaped-the-run"
+  \* (a panic raised by a lazily evaluated convert function of a node's output stream is only promised to be contained where a
+  \* stream-forwarding goroutine evaluates it; when the run loop itself reads that stream the outcome is not judged)
+  ELSE IF c = "escaped-panic" THEN (IF SpanicRan(V) THEN "ok" ELSE "panic-escaped-the-run")
   ELSE IF e.sets # <<>> THEN "checkpoint-written-without-interrupt"
   ELSE IF c = "node" THEN
        \* (an error item inside a node's output stream surfaces where it is consumed: the path is not constrained for it)
@@ -397,7 +400,8 @@ ErrorWhy(gg, V, e) == LET c == e.class IN
   ELSE IF c = "dup" THEN
        (IF \E p \in DOMAIN V : DupDue(V[p]) THEN "ok" ELSE "merge-error-not-expected")
   ELSE IF c = "panic" THEN
-       (IF ~\E x \in Failing(V, "panic") : e.path = PathOf(gg, x[1]) \o <<x[2]>> THEN "panic-error-names-wrong-node-path" ELSE "ok")
+       \* (a panic inside a node's output stream -- lazily converted stream -- surfaces where the stream is consumed)
+       (IF ~SerrRan(V) /\ ~\E x \in Failing(V, "panic") : e.path = PathOf(gg, x[1]) \o <<x[2]>> THEN "panic-error-names-wrong-node-path" ELSE "ok")
   ELSE IF c = "maxsteps" THEN
        (IF ~\E p \in DOMAIN V : (StepLimitHit(V[p]) \/ LimitAtDeadEnd(V[p])) /\ e.path = PathOf(gg, p) THEN "max-steps-error-not-expected"
         ELSE IF ~e.is THEN "max-steps-sentinel-not-matchable" ELSE "ok")
@@ -406,7 +410,11 @@ ErrorWhy(gg, V, e) == LET c == e.class IN
   ELSE IF c \in {"stuck", "endskipped"} THEN
        (IF \E p \in DOMAIN V : DeadEnd(V[p]) THEN "ok" ELSE "dead-end-error-not-expected-in-state-" \o V[""].st)
   ELSE IF c = "hang" THEN "run-hangs"
-  ELSE IF c = "escaped-panic" THEN "panic-escaped-the-run"
+  \* (a panic raised by a lazily evaluated convert function of a node's output stream is only promised to be contained where a
+  \* stream-forwarding goroutine evaluates it; when the run loop itself reads that stream the outcome is not judged)
+  ELSE IF c = "escaped-panic" THEN (IF SpanicRan(V) THEN "ok" ELSE "panic-escaped-the-run")
+  \* (after a panic inside a node's lazily converted output stream the run must fail; which error it fails with is not stated)
+  ELSE IF SpanicRan(V) THEN "ok"
   ELSE "unexpected-error"
 OnError(S, e) == LET why == ErrorWhy(S.g, View(S), e) IN IF why # "ok" THEN BadS(S, why) ELSE EndS(S)
 
